@@ -157,8 +157,27 @@ def c01(res, tier, seed):
                 m["nocase"], m["xor"] = True, False
             if r.random() < 0.6:
                 m["wide"] = True; m["ascii_explicit"] = r.random() < 0.6
+        periodic = pi % 9 == 7
+        if periodic:
+            # base64 of a plaintext that repeats with a period that is not a multiple of 3: occurrences of the three alignments of
+            # the encoded string overlap each other, and are found out of offset order (each alignment has its own atom)
+            unit = [r.choice([0x68, 0x65, 0x79, 0x20, 0x41, 0x7a, 0x31]) for _ in range(r.choice([4, 5, 7]))]
+            pat = unit * r.choice([2, 3])
+            small = True
+            m = random_mods(r)
+            m.update({"nocase": False, "xor": False, "fullword": False, "wide": False, "ascii_explicit": False})
+            w = r.random()
+            m["b64"] = w < 0.7; m["b64w"] = w > 0.4; m["alpha"] = list(STD_ALPHA)
+            if r.random() < 0.3:
+                al = list(STD_ALPHA); r.shuffle(al); m["alpha"] = al
         src = 'rule t { strings: $s = "%s" %s condition: #s >= 0 }' % (esc(pat, r), mods_text(m))
         bufs = [random_buffer(r, pat, m, 96 if small else 400) for _ in range(nbuf)]
+        if periodic:
+            import base64 as b64m
+            trans = bytes.maketrans(STD_ALPHA, bytes(m["alpha"]))
+            for i in range(3):
+                enc = b64m.b64encode(b"#" * i + bytes(unit) * (len(pat) // len(unit) + r.randint(3, 6)) + b" ").translate(trans)
+                bufs.append(enc[:400]); bufs.append(b"".join(bytes([x, 0]) for x in enc)[:400])
         bufs += [b"", bytes(pat)]
         # occurrences at the two ends of the buffer with exactly one (8-bit or wide) alphanumeric / other character beyond them: the
         # word-boundary tests of `fullword` read the neighbours, which here are the first / last bytes of the data
